@@ -615,17 +615,21 @@ func finish(spec *Spec, tier string, seed int, evidencePath string, start time.T
 		os.RemoveAll(replayDir)
 	}
 	reported := 0
+	replayedKeys := map[string]string{}
 	for i, nv := range newV {
 		dir := filepath.Join(replayDir, fmt.Sprintf("%s-%d", nv.in.entry, i))
 		os.MkdirAll(dir, 0o755)
 		writeJSON(filepath.Join(dir, "model.json"), nv.v.Model)
 		writeJSON(filepath.Join(dir, "violation.json"), map[string]interface{}{"property": spec.Property, "instance": nv.in.String(), "params": nv.in.params, "violation": nv.v})
 		status := "native-replay: none"
-		if spec.NativeReplay && !noReplay {
+		if prev, seen := replayedKeys[nv.v.Key]; seen && spec.NativeReplay && !noReplay {
+			status = "native-replay: same key reproduced in " + prev
+		} else if spec.NativeReplay && !noReplay {
 			ok, out := nativeReplay(spec, nv.in, nv.v, dir, realFiles)
 			os.WriteFile(filepath.Join(dir, "native.log"), []byte(out), 0o644)
 			if ok {
 				status = "native-replay: reproduced"
+				replayedKeys[nv.v.Key] = dir
 				replayed++
 			} else {
 				status = "native-replay: NOT reproduced"
